@@ -11,11 +11,11 @@ EXPLICITS = [U, dict(U, nj="4"), dict(U, b="thr"), dict(U, b="proc"), dict(U, pf
              dict(U, mm="w+", tf="/tmp/y")]
 
 
-def cfg(name, frames, maxdepth, maxlen, gen, defb="proc"):
+def cfg(name, frames, maxdepth, maxlen, gen, defb="proc", procavail=True):
     path = os.path.join(common.VERIF, "out", "cfg", "CS_%s.cfg" % name)
-    lines = ["CONSTANTS", "  Threads = {1, 2}", "  Frames <- %s" % frames, "  Explicits <- ExplicitsA", "  MaxDepth = %d" % maxdepth, "  MaxLen = %d" % maxlen, "  Gen = %s" % tlc.tla(gen), '  DefB = "%s"' % defb]
+    lines = ["CONSTANTS", "  Threads = {1, 2}", "  Frames <- %s" % frames, "  Explicits <- ExplicitsA", "  MaxDepth = %d" % maxdepth, "  MaxLen = %d" % maxlen, "  Gen = %s" % tlc.tla(gen), '  DefB = "%s"' % defb, "  ProcAvail = %s" % tlc.tla(procavail)]
     if gen: lines += ["INIT Init", "NEXT Next", "CONSTRAINT Emit"]
-    else: lines += ["SPECIFICATION Spec", "INVARIANT SharedMemIsThreads", "INVARIANT ExplicitBackendWins", "PROPERTY Isolated", "PROPERTY Restored", "VIEW View"]
+    else: lines += ["SPECIFICATION Spec", "INVARIANT SharedMemIsThreads", "INVARIANT ExplicitBackendWins", "INVARIANT PreferIsAHint", "PROPERTY Isolated", "PROPERTY Restored", "VIEW View"]
     lines.append("CHECK_DEADLOCK FALSE")
     os.makedirs(os.path.dirname(path), exist_ok=True); open(path, "w").write("\n".join(lines) + "\n")
     return path
@@ -24,7 +24,9 @@ def cfg(name, frames, maxdepth, maxlen, gen, defb="proc"):
 def run_job(args):
     base, k, progs = args[:3]; defb = args[3] if len(args) > 3 else "proc"
     jf = os.path.join(base, "job%d.json" % k); json.dump({"explicits": EXPLICITS, "programs": progs, "default_backend": defb}, open(jf, "w"))
-    p = subprocess.run(["/venv/bin/python", WORKER, jf], env=dict(os.environ, PYTHONPATH=os.environ.get("VERIF_REPO", "/repo"), PYTHONDONTWRITEBYTECODE="1"), capture_output=True, text=True, timeout=3000)
+    env = dict(os.environ, PYTHONPATH=os.environ.get("VERIF_REPO", "/repo"), PYTHONDONTWRITEBYTECODE="1")
+    if defb == "nomp": env["JOBLIB_MULTIPROCESSING"] = "0"
+    p = subprocess.run(["/venv/bin/python", WORKER, jf], env=env, capture_output=True, text=True, timeout=3000)
     if not os.path.exists(jf + ".out"): raise RuntimeError("config worker failed: " + p.stderr[-600:])
     return json.load(open(jf + ".out"))
 
@@ -52,9 +54,18 @@ def body(c):
     pt += tlc.printed_json(r)
     c.extra["programs_thread_default"] = len(pt)
     if len(pt) > (400 if c.quick else 6000): pt = rng.sample(pt, 400 if c.quick else 6000)
+    # an interpreter without process-based backends (JOBLIB_MULTIPROCESSING=0): naming one falls back to threads, prefer stays a hint
+    c.model_check("ConfigScope[no process backend available]", "MCConfigScope", cfg("mcn", "FramesC", 2 if c.quick else 3, 0, False, defb="thr", procavail=False), workers=16, timeout=600)
+    r = tlc.run("MCConfigScope", cfg("simn", "FramesA", 4, 5 if c.quick else 8, True, defb="thr", procavail=False), simulate="num=%d" % (60 if c.quick else 1500), depth=7 if c.quick else 12, seed=c.seed + 23, workers=1, timeout=900)
+    c.add_tlc("ConfigScope-simulate[no process backend]", r)
+    pn = tlc.printed_json(r)
+    r = tlc.run("MCConfigScope", cfg("genn", "FramesC", 2, 2, True, defb="thr", procavail=False), workers=1, timeout=900, heap="6g"); c.add_tlc("ConfigScope-gen[no process backend, L=2]", r)
+    pn += tlc.printed_json(r)
+    c.extra["programs_no_process_backend"] = len(pn)
+    if len(pn) > (250 if c.quick else 5000): pn = rng.sample(pn, 250 if c.quick else 5000)
     base = common.scratch("c17")
     nw = 14
-    jobs = [(base, k, allp[k::nw]) for k in range(nw)] + [(base, nw + k, pt[k::4], "thr") for k in range(4)]
+    jobs = [(base, k, allp[k::nw]) for k in range(nw)] + [(base, nw + k, pt[k::4], "thr") for k in range(4)] + [(base, nw + 4 + k, pn[k::3], "nomp") for k in range(3)]
     with ThreadPoolExecutor(max_workers=nw) as ex:
         results = list(ex.map(run_job, jobs))
     shutil.rmtree(base, ignore_errors=True)
@@ -67,6 +78,11 @@ def body(c):
             for pb in r["problems"]:
                 key = {"default_backend": (b_k_ps[3] if len(b_k_ps) > 3 else "proc"), "setting": KEYN.get(pb.get("key"), pb.get("kind")), "thread_forced_to_threads": bool(pb.get("forced_threads")), "got": pb.get("got"), "program": acts, "step": pb.get("step"),
                        "observer": pb.get("thread"), "explicit": EXPLICITS[pb["explicit"]] if "explicit" in pb else None}
+                if pb.get("kind") in ("observe_raised", "action_raised"):
+                    key["got"] = pb.get("detail")
+                    c.violation(key, "C17: after %s thread %s: %s: %s (default backend: %s)" % (acts[: (pb.get("step") or 0) + 1], pb.get("thread"),
+                                {"observe_raised": "constructing Parallel with one of the explicit-argument variants raised", "action_raised": "entering / leaving the context raised"}[pb["kind"]], pb.get("detail"), key["default_backend"]), pb)
+                    continue
                 c.violation(key, "C17: after %s thread %s constructing Parallel(%s) resolves %s = %r, expected %r (explicit > innermost context > outer > default)" %
                             (acts[: (pb.get("step") or 0) + 1], pb.get("thread"), {kk: vv for kk, vv in (key["explicit"] or {}).items() if vv != "U"}, key["setting"], pb.get("got"), pb.get("want")), pb)
     c.traces_validated = c.evaluations
